@@ -763,7 +763,11 @@ def oracle_other(case):
         else:
             flat.append(e)
     if f == 'nsflat':
-        # the flattener rewrites names to prefixed strings; compare shapes only
+        # the flattener rewrites names to prefixed strings: the string written for an END must be the string
+        # written for its START (theorem ns_flattener_wellnested) ...
+        if not G.nested_ok(flat):
+            return fail(case, 'filter nsflat keeps the stream well nested', 'well nested (flattened names)', _short(out))
+        # ... and the shapes must nest
         flat = [[e[0], ['', '']] + e[2:] if e[0] in ('S', 'E') else e for e in flat]
         st = 0
         for e in flat:
